@@ -263,6 +263,20 @@ impl DifficultyValues {
         n_diff_objects: &mut usize,
         mods: &GameMods,
     ) -> TaikoDifficultyObjects {
+        // Once all hits are passed, the play covers the whole map, including
+        // any hit objects after the last hit.
+        let total_hits = converted
+            .hit_objects
+            .iter()
+            .filter(|h| h.is_circle())
+            .count();
+
+        let take = if take > 0 && take as usize >= total_hits {
+            u32::MAX
+        } else {
+            take
+        };
+
         let mut hit_objects_iter = converted
             .hit_objects
             .iter()
